@@ -17,7 +17,13 @@ class Module(object):
         with warnings.catch_warnings():
             warnings.simplefilter('ignore')
             self.tree = ast.parse(self.source, filename=rel)
-        from .normalise import normalise
+        from .normalise import normalise, modern_syntax
+        try:
+            self.modernised = modern_syntax(self.tree)
+        except Exception:
+            # never analyse a half-rewritten tree
+            self.tree = ast.parse(self.source, filename=rel)
+            self.modernised = -1
         self.normalised = normalise(self.tree)
         for node in ast.walk(self.tree):
             for child in ast.iter_child_nodes(node):
@@ -119,6 +125,13 @@ class Program(object):
                     continue
                 raise AnalysisError('cannot parse %s: %s' % (rel, e))
             self.modules[rel] = m
+        from .normalise import properties_to_methods
+        self.properties_rewritten = properties_to_methods([m_.tree for r_, m_ in self.modules.items() if self.is_core(r_)])
+        for rel, m in self.modules.items():
+            if self.properties_rewritten:
+                for node in ast.walk(m.tree):
+                    for child in ast.iter_child_nodes(node):
+                        child._parent = node
             for st in m.tree.body:
                 if isinstance(st, ast.ClassDef):
                     ci = ClassInfo(m, st)
